@@ -54,7 +54,8 @@ def case_st(draw):
             "badhost": draw(st.sampled_from([None, None, "a", "b", "c"])),
             "bad_after": draw(st.sampled_from([0, 0, 1, 2])),  # the bad host presents its pinned certificate on the first k connections
             "identity": draw(st.sampled_from([None, None, "ec-b", "rsa-a"])),
-            "dbfault": draw(st.sampled_from([None, None, None, 1, 2, 3, 4, 5]))}  # trust-store failure at the n-th statement of the fetch  # the client is configured with a client certificate
+            "dbfault": draw(st.sampled_from([None, None, None, 1, 2, 3, 4, 5])),
+            "sslctx": draw(st.sampled_from(["own", "own", "supplied"]))}  # TLS context built by the client or handed in by the caller  # trust-store failure at the n-th statement of the fetch  # the client is configured with a client certificate
 
 
 def enum_small(tier):
@@ -74,6 +75,8 @@ def enum_small(tier):
                         if bad == "b" and follow:
                             yield {"nodes": list(nodes), "start": 0, "maxr": maxr, "follow": follow, "badhost": bad, "bad_after": after,
                                    "identity": "ec-b"}
+                            yield {"nodes": list(nodes), "start": 0, "maxr": maxr, "follow": follow, "badhost": bad, "bad_after": after,
+                                   "sslctx": "supplied"}
 
 
 def enum_revisit(tier):
@@ -175,6 +178,10 @@ def run_case(case: dict):
         if case.get("identity"):
             ic = certs.get(case["identity"])
             ident = {"client_cert": Path(ic.cert_path), "client_key": Path(ic.key_path)}
+        if case.get("sslctx") == "supplied" and not ident:
+            from nauyaca.security.tls import create_client_context
+
+            ident = {"ssl_context": create_client_context()}
         client = GeminiClient(timeout=10, max_redirects=case["maxr"], tofu_db_path=dbpath, **ident)
         from props import c12
 
